@@ -417,7 +417,9 @@ def run_c19(pid, spec, tier, seed, work, t0, no_prove):
         LTS = [None, absB, os.path.join(root, "missing").encode(), b"Zone/A"]
         NAMES = [b"Zone/A", b"B", absA, absB, b"file:Zone/A", b"file:" + absA, b"", b"Zone", b"unreadable", b"trunc", b"right",
                  b":B", b"nosuch", b"UTC", b"UTC0", b"Fixed/UTC-03:00:00", b"Fixed/UTC+24:00:00", b"Fixed/UTC+24:00:01", b"file:", b"file:file:B",
-                 b"America/New_York", b"B\0junk", b"Zone//A", b"./B", b"file:/nonexistent"]
+                 b"America/New_York", b"B\0junk", b"Zone//A", b"./B", b"file:/nonexistent",
+                 # absolute-looking names that exist only relative to TZDIR (must NOT load)
+                 b"file:/Zone/A", b"file:/B", b"/B", b"/Zone/A", b"//B", b"file://B", b"FILE:B", b"file:./B"]
         drv, dlog = C.build_driver()
         har, hlog = C.build_harness(variant="plain", harness_src="env_harness.cc")
         if drv is None or har is None:
